@@ -60,6 +60,11 @@ def coq_makefile():
         if rc != 0:
             raise RuntimeError("coq_makefile failed: " + out)
         open(stamp, "w").write(want)
+        # the dependency file is rebuilt by make only for .v files newer than it: files copied in with old timestamps
+        # would be compiled without their dependencies
+        for dep in (".Makefile.coq.d", "Makefile.coq.d"):
+            if os.path.exists(os.path.join(COQ, dep)):
+                os.remove(os.path.join(COQ, dep))
 
 
 def coq_make(targets, timeout=1500):
